@@ -146,7 +146,58 @@ func cmdDump(args []string) int {
 	return 0
 }
 
+type boundedResult struct {
+	Name   string  `json:"name"`
+	What   string  `json:"what"`
+	Bound  string  `json:"bound"`
+	Passed bool    `json:"passed"`
+	Output string  `json:"output"`
+	Cmd    string  `json:"cmd"`
+	TimeS  float64 `json:"time_s"`
+}
+
+type boundedSpec struct {
+	Property      string `json:"property"`
+	Name          string `json:"name"`
+	File          string `json:"file"`
+	PkgDir        string `json:"pkgdir"`
+	Run           string `json:"run"`
+	BoundQuick    string `json:"bound_quick"`
+	BoundThorough string `json:"bound_thorough"`
+	What          string `json:"what"`
+}
+
+// runBounded runs the bounded stand-ins of a property against the real code.
+// They are labelled "bounded" in the evidence and never counted as discharged.
+func runBounded(prop, tier string) []boundedResult {
+	b, err := os.ReadFile(filepath.Join(VerifDir, "replay", "bounded.json"))
+	if err != nil {
+		return nil
+	}
+	var specs []boundedSpec
+	if json.Unmarshal(b, &specs) != nil {
+		return nil
+	}
+	var out []boundedResult
+	for _, sp := range specs {
+		if sp.Property != prop {
+			continue
+		}
+		bound := sp.BoundQuick
+		if tier == "thorough" && sp.BoundThorough != "" {
+			bound = sp.BoundThorough
+		}
+		t0 := time.Now()
+		os.Setenv("GOVC_BOUND", bound)
+		o, failed, cmdline := runScenarioIn(replayScenario{File: sp.File, PkgDir: sp.PkgDir, Run: sp.Run}, "bounded")
+		ran := strings.Contains(o, "ok  ") || strings.Contains(o, "--- FAIL") || strings.Contains(o, "PASS")
+		out = append(out, boundedResult{Name: sp.Name, What: sp.What, Bound: bound, Passed: !failed && ran, Output: o, Cmd: cmdline, TimeS: time.Since(t0).Seconds()})
+	}
+	return out
+}
+
 type checkResult struct {
+	bounded   []boundedResult
 	records []oblRecord
 	reports []*FuncReport
 	funcs   []string
@@ -339,9 +390,9 @@ func runCheck(P *Program, DB *ContractDB, prop, tier string, only string) *check
 	}
 	res.genS = time.Since(t0).Seconds()
 	t1 := time.Now()
-	timeout := 10
+	timeout := 30
 	if tier == "thorough" {
-		timeout = 60
+		timeout = 90
 	}
 	if v := os.Getenv("GOVC_TIMEOUT"); v != "" {
 		timeout, _ = strconv.Atoi(v)
@@ -414,6 +465,9 @@ func cmdCheck(args []string) int {
 	loadS := time.Since(t0).Seconds()
 	res := runCheck(P, DB, *prop, *tier, *only)
 	res.loadS = loadS
+	if *only == "" {
+		res.bounded = runBounded(*prop, *tier)
+	}
 	return report(P, DB, res, *prop, *tier, *only == "", *verbose, time.Since(t0).Seconds())
 }
 
@@ -495,6 +549,22 @@ func report(P *Program, DB *ContractDB, res *checkResult, prop, tier string, wri
 		r := &oblRecord{Name: prop + "/" + e, Kind: "contract", Verdict: "unresolved", Status: "failed"}
 		path := writeReplay(replayDir, prop, r, res)
 		violations = append(violations, fmt.Sprintf("VIOLATION property=%s replay=%s obligation=%q no-failing-input-found", prop, path, e))
+	}
+	for _, b := range res.bounded {
+		if b.Passed {
+			fmt.Printf("BOUNDED %s (bound %s): ok in %.1fs -- %s\n", b.Name, b.Bound, b.TimeS, lastLogLine(b.Output))
+			continue
+		}
+		os.MkdirAll(replayDir, 0o755)
+		path := filepath.Join(replayDir, prop+"_bounded_"+b.Name+".json")
+		jb, _ := json.MarshalIndent(b, "", " ")
+		os.WriteFile(path, jb, 0o644)
+		if strings.Contains(b.Output, "--- FAIL") {
+			violations = append(violations, fmt.Sprintf("VIOLATION property=%s replay=%s obligation=%q bounded stand-in failed on the real code (bound %s)", prop, path, prop+"/bounded["+b.Name+"]", b.Bound))
+		} else {
+			fmt.Printf("BROKEN-CHECK: bounded stand-in %s did not run: %s\n", b.Name, firstLines(b.Output, 3))
+			broken = true
+		}
 	}
 	if len(res.records) == 0 && len(res.errors) == 0 {
 		fmt.Printf("BROKEN-CHECK: no obligations generated for %s\n", prop)
@@ -621,6 +691,9 @@ func extraAssumptions(prop string) []string {
 	return append(m["*"], m[prop]...)
 }
 
+// extraOverlay: source files replaced in go test runs (canary mutants)
+var extraOverlay = map[string]string{}
+
 type replayScenario struct {
 	Match  string `json:"match"`
 	File   string `json:"file"`
@@ -671,6 +744,10 @@ func runReplayFor(prop string, r *oblRecord, path string) string {
 }
 
 func runScenario(sc replayScenario) (output string, failed bool, cmdline string) {
+	return runScenarioIn(sc, "scenarios")
+}
+
+func runScenarioIn(sc replayScenario, sub string) (output string, failed bool, cmdline string) {
 	tmp, err := os.MkdirTemp("", "govc-replay-")
 	if err != nil {
 		return err.Error(), false, ""
@@ -679,12 +756,15 @@ func runScenario(sc replayScenario) (output string, failed bool, cmdline string)
 	ov := map[string]map[string]string{"Replace": {
 		filepath.Join(RepoDir, "quic", "quic.go"):                   filepath.Join(VerifDir, "replay", "quicstub", "quic.go"),
 		filepath.Join(RepoDir, "quic", "inherit.go"):                filepath.Join(VerifDir, "replay", "quicstub", "inherit.go"),
-		filepath.Join(RepoDir, sc.PkgDir, "zz_govc_replay_test.go"): filepath.Join(VerifDir, "replay", "scenarios", sc.File),
+		filepath.Join(RepoDir, sc.PkgDir, "zz_govc_replay_test.go"): filepath.Join(VerifDir, "replay", sub, sc.File),
 	}}
+	for k, v := range extraOverlay {
+		ov["Replace"][k] = v
+	}
 	ob, _ := json.Marshal(ov)
 	ovf := filepath.Join(tmp, "ov.json")
 	os.WriteFile(ovf, ob, 0o644)
-	args := []string{"test", "-overlay", ovf, "-vet=off", "-count=1", "-timeout", "120s", "-run", "^" + sc.Run + "$", "./" + sc.PkgDir}
+	args := []string{"test", "-overlay", ovf, "-vet=off", "-count=1", "-timeout", "600s", "-v", "-run", "^" + sc.Run + "$", "./" + sc.PkgDir}
 	cmd := exec.Command("go", args...)
 	cmd.Dir = RepoDir
 	cmd.Env = goEnv()
@@ -787,6 +867,26 @@ func runCanary(c Canary, tier string) (status string, detail string) {
 	}
 	for _, e := range res.errors {
 		failed = append(failed, e)
+	}
+	// bounded stand-ins run the mutant through a go-test overlay
+	if hasBounded(c.Property) {
+		tmp, err := os.MkdirTemp("", "govc-canary-")
+		if err == nil {
+			defer os.RemoveAll(tmp)
+			i := 0
+			for path, content := range overlay {
+				f := filepath.Join(tmp, fmt.Sprintf("m%d.go", i))
+				i++
+				os.WriteFile(f, content, 0o644)
+				extraOverlay[path] = f
+			}
+			for _, b := range runBounded(c.Property, tier) {
+				if !b.Passed {
+					failed = append(failed, c.Property+"/bounded["+b.Name+"]")
+				}
+			}
+			extraOverlay = map[string]string{}
+		}
 	}
 	if c.Harmless {
 		if len(failed) == 0 {
@@ -944,4 +1044,30 @@ func pkgOfQual(q string) string {
 		return q
 	}
 	return q[:i]
+}
+
+func lastLogLine(out string) string {
+	for _, l := range strings.Split(out, "\n") {
+		if strings.Contains(l, "BOUNDED ") {
+			return strings.TrimSpace(l)
+		}
+	}
+	return ""
+}
+
+func hasBounded(prop string) bool {
+	b, err := os.ReadFile(filepath.Join(VerifDir, "replay", "bounded.json"))
+	if err != nil {
+		return false
+	}
+	var specs []boundedSpec
+	if json.Unmarshal(b, &specs) != nil {
+		return false
+	}
+	for _, sp := range specs {
+		if sp.Property == prop {
+			return true
+		}
+	}
+	return false
 }
